@@ -1,2 +1,112 @@
-(** placeholder until the C03 theorems are in place *)
-From Texel Require Import Prelude.Base.
+(** * C03 — output coordinates are pixel centres of the requested level (index part).
+
+    Integer coordinates are the tool's units of 1e-10; the float conversion and the level arithmetic
+    (level = tile matrix id + log2 tileWidth + 4, FromTileMatrixSet) are not part of Index/Model.v and are
+    covered elsewhere.  [hotLookup hots L] is the set of occupied pixel addresses of level L,
+    [pixelOf g L v] the address of the level-L pixel of the point v. *)
+From Coq Require Import ZArith QArith List Bool.
+From Texel Require Import Prelude.Base Index.Model Index.ProofsInsert Index.ProofsGrid Index.ProofsCentre.
+Import ListNotations.
+Open Scope Z_scope.
+
+(** the centroid of pixel (x, y) of level l is min + x S + S/2 with S = 2^(deepest - l) res *)
+Theorem C03_centre_formula : forall g l x y,
+  quadCentroid g l x y =
+  (eminx (gext g) + x * (pow2 (gdeep g - l) * gres g) + (pow2 (gdeep g - l) * gres g) / 2,
+   eminy (gext g) + y * (pow2 (gdeep g - l) * gres g) + (pow2 (gdeep g - l) * gres g) / 2).
+Proof. exact centre_formula. Qed.
+Print Assumptions C03_centre_formula.
+
+(** it is the exact middle of the pixel above the deepest level, or when the resolution is even ... *)
+Theorem C03_centre_is_middle : forall g l x y, ((l < gdeep g)%nat \/ Z.even (gres g) = true) ->
+  2 * fst (quadCentroid g l x y) = eminx (quadExtent g l x y) + emaxx (quadExtent g l x y) /\
+  2 * snd (quadCentroid g l x y) = eminy (quadExtent g l x y) + emaxy (quadExtent g l x y).
+Proof. exact centre_is_middle. Qed.
+Print Assumptions C03_centre_is_middle.
+
+(** ... and at most half a unit (0.5e-10) below it in general *)
+Theorem C03_centre_near_middle : forall g l x y,
+  0 <= eminx (quadExtent g l x y) + emaxx (quadExtent g l x y) - 2 * fst (quadCentroid g l x y) <= 1 /\
+  0 <= eminy (quadExtent g l x y) + emaxy (quadExtent g l x y) - 2 * snd (quadCentroid g l x y) <= 1.
+Proof. exact centre_near_middle. Qed.
+Print Assumptions C03_centre_near_middle.
+
+(** every point snapClosestPoints returns for level L is the centroid of a pixel of level L with an address in
+    [0, 2^L)^2; below the root the pixel is in the occupied set of that level (any segment, any sets) *)
+Theorem C03_outputs_are_centroids : forall g hots a b L p, In p (snapClosestPoints g hots a b L) ->
+  exists x y, 0 <= x < pow2 L /\ 0 <= y < pow2 L /\ p = quadCentroid g L x y /\
+              (L <> 0%nat -> In (x, y) (hotLookup hots L)).
+Proof. exact outputs_are_centroids. Qed.
+Print Assumptions C03_outputs_are_centroids.
+
+(** for an indexed polygon: it is the centroid of the pixel of one of the polygon's vertices *)
+Theorem C03_outputs_are_hot_centroids : forall g P hs a b L p, 0 < gres g -> insertPolygon g P = Ok hs ->
+  (0 < L <= gdeep g)%nat -> In p (snapClosestPoints g (hotLevels g hs) a b L) ->
+  exists v, In v (concat P) /\ p = quadCentroid g L (fst (pixelOf g L v)) (snd (pixelOf g L v)) /\
+            containsPoint v (quadExtent g L (fst (pixelOf g L v)) (snd (pixelOf g L v))) = true.
+Proof. exact outputs_are_hot_centroids. Qed.
+Print Assumptions C03_outputs_are_hot_centroids.
+
+(** deviation from the ideal pixel centre min + (k + 1/2) XSpan / 2^l, for a grid as FromTileMatrixSet builds it
+    (res = XSpan / 2^deepest rounded down).  [dev] = XSpan - 2^deepest res is the deviation the tool reports.
+    The centroid is never beyond the ideal centre and falls short of it by at most dev + 1/2 unit; by at most
+    dev above the deepest level or when the resolution is even (the literal bound of the property). *)
+Theorem C03_centre_deviation_bound : forall g l k y,
+  gres g = (emaxx (gext g) - eminx (gext g)) / gsize g -> (l <= gdeep g)%nat -> 0 <= k < pow2 l ->
+  let X := emaxx (gext g) - eminx (gext g) in
+  let ideal := (inject_Z (eminx (gext g)) + (inject_Z k + (1 # 2)) * (inject_Z X / inject_Z (pow2 l)))%Q in
+  let actual := inject_Z (fst (quadCentroid g l k y)) in
+  let dev := inject_Z (X - gsize g * gres g) in
+  (0 <= dev /\ 0 <= ideal - actual /\ ideal - actual <= dev + (1 # 2) /\
+   (((l < gdeep g)%nat \/ Z.even (gres g) = true) -> ideal - actual <= dev))%Q.
+Proof. exact centre_deviation_bound. Qed.
+Print Assumptions C03_centre_deviation_bound.
+
+(** y axis: the resolution is derived from the x span only, the bound holds for a square extent *)
+Theorem C03_centre_deviation_bound_y : forall g l x k,
+  gres g = (emaxx (gext g) - eminx (gext g)) / gsize g ->
+  emaxy (gext g) - eminy (gext g) = emaxx (gext g) - eminx (gext g) ->
+  (l <= gdeep g)%nat -> 0 <= k < pow2 l ->
+  let Y := emaxy (gext g) - eminy (gext g) in
+  let ideal := (inject_Z (eminy (gext g)) + (inject_Z k + (1 # 2)) * (inject_Z Y / inject_Z (pow2 l)))%Q in
+  let actual := inject_Z (snd (quadCentroid g l x k)) in
+  let dev := inject_Z (Y - gsize g * gres g) in
+  (0 <= dev /\ 0 <= ideal - actual /\ ideal - actual <= dev + (1 # 2) /\
+   (((l < gdeep g)%nat \/ Z.even (gres g) = true) -> ideal - actual <= dev))%Q.
+Proof. exact centre_deviation_bound_y. Qed.
+Print Assumptions C03_centre_deviation_bound_y.
+
+(** the literal bound |ideal - actual| <= dev is false at the deepest level when the resolution is odd:
+    extent [0, 6), deepest level 1, res 3, dev 0; the centroid of pixel 0 is 0 + 3/2 = 1 (rounded down),
+    the ideal centre 3/2.  Half a unit = 0.5e-10, far below the float resolution of the output. *)
+Example C03_deviation_bound_refuted :
+  exists g l k y,
+    gres g = (emaxx (gext g) - eminx (gext g)) / gsize g /\ (l <= gdeep g)%nat /\ 0 <= k < pow2 l /\
+    let X := emaxx (gext g) - eminx (gext g) in
+    let ideal := (inject_Z (eminx (gext g)) + (inject_Z k + (1 # 2)) * (inject_Z X / inject_Z (pow2 l)))%Q in
+    let actual := inject_Z (fst (quadCentroid g l k y)) in
+    let dev := inject_Z (X - gsize g * gres g) in
+    (~ ideal - actual <= dev /\ ideal - actual == dev + (1 # 2))%Q.
+Proof.
+  exists (mkGrid (mkExtent 0 0 6 6) 3 1), 1%nat, 0, 0.
+  split; [reflexivity |]. split; [apply le_n |]. split; [vm_compute; split; [discriminate | reflexivity] |].
+  cbv zeta. split; [intro H; vm_compute in H; apply H; reflexivity | vm_compute; reflexivity].
+Qed.
+
+(** non-vacuity on the real NetherlandsRDNewQuad grid for tile matrix 14 (level 14 + 8 + 4 = 26):
+    min (-285401.92, 22598.08), span 880803.84 = 2^26 * 0.013125: round grid, even resolution, deviation 0. *)
+Definition gRD : grid :=
+  mkGrid (mkExtent (-2854019200000000) 225980800000000 5954019200000000 9034019200000000) 131250000 26.
+
+Example C03_RD_example :
+  gres gRD = (emaxx (gext gRD) - eminx (gext gRD)) / gsize gRD /\
+  emaxy (gext gRD) - eminy (gext gRD) = emaxx (gext gRD) - eminx (gext gRD) /\
+  emaxx (gext gRD) - eminx (gext gRD) - gsize gRD * gres gRD = 0 /\
+  Z.even (gres gRD) = true /\
+  0 < gres gRD /\
+  (* the pixel of the point (117220.282, 440135.898) at level 26 and its centre (117220.2846875, 440135.9021875) *)
+  pixelOf gRD 26 (1172202820000000, 4401358980000000) = (30675977, 31812405) /\
+  quadCentroid gRD 26 30675977 31812405 = (1172202846875000, 4401359021875000) /\
+  snapClosestPoints gRD (hotLevels gRD [(30675977, 31812405)]) (1172202820000000, 4401358980000000)
+      (1172202820000000, 4401358980000000) 26 = [(1172202846875000, 4401359021875000)].
+Proof. vm_compute. repeat split; reflexivity. Qed.
